@@ -710,34 +710,162 @@ func (e *Enc) topo() []*ssa.BasicBlock {
 }
 
 // modifiedKeys: state keys possibly written inside the loop.
-func (e *Enc) loopWrites(li *loopInfo) (cells map[*ssa.Alloc]bool, heapAll bool, heapKeys map[string]bool, iters map[ssa.Value]bool) {
+func (e *Enc) loopWrites(li *loopInfo) (cells map[*ssa.Alloc]bool, heapAll bool, heapKeys map[string]string, iters map[ssa.Value]bool) {
 	cells = map[*ssa.Alloc]bool{}
-	heapKeys = map[string]bool{}
+	heapKeys = map[string]string{} // key -> sort
 	iters = map[ssa.Value]bool{}
+	addPtr := func(t types.Type) {
+		if st, ok := t.Underlying().(*types.Struct); ok {
+			for i := 0; i < st.NumFields(); i++ {
+				if _, nested := st.Field(i).Type().Underlying().(*types.Struct); nested {
+					heapAll = true // nested objects: keep it simple
+					return
+				}
+				for j, so := range flatten(st.Field(i).Type()) {
+					heapKeys[fieldKey(t, i, j)] = "(Array Int " + so + ")"
+				}
+			}
+			return
+		}
+		for j, so := range flatten(t) {
+			heapKeys[ptrKey(t, j)] = "(Array Int " + so + ")"
+		}
+	}
+	addElems := func(t types.Type) {
+		for j, so := range flatten(t) {
+			heapKeys[elemKey(t, j)] = "(Array Int (Array Int " + so + "))"
+		}
+	}
+	addMap := func(mt *types.Map) {
+		heapKeys[mapHasKey(mt)] = "(Array Int (Array Int Bool))"
+		heapKeys["map.card"] = "(Array Int Int)"
+		for j, so := range flatten(mt.Elem()) {
+			heapKeys[mapValKey(mt, j)] = "(Array Int (Array Int " + so + "))"
+		}
+	}
 	for b := range li.blocks {
 		for _, ins := range b.Instrs {
 			switch ins := ins.(type) {
 			case *ssa.Store:
 				if a := rootAlloc(ins.Addr); a != nil && !a.Heap {
 					cells[a] = true
-				} else {
+					break
+				}
+				switch ad := ins.Addr.(type) {
+				case *ssa.FieldAddr:
+					pt := ad.X.Type().Underlying().(*types.Pointer).Elem()
+					ft := pt.Underlying().(*types.Struct).Field(ad.Field).Type()
+					if _, nested := ft.Underlying().(*types.Struct); nested {
+						heapAll = true
+					} else if _, isArr := ft.Underlying().(*types.Array); isArr {
+						heapAll = true
+					} else {
+						for j, so := range flatten(ft) {
+							heapKeys[fieldKey(pt, ad.Field, j)] = "(Array Int " + so + ")"
+						}
+					}
+				case *ssa.IndexAddr:
+					switch u := ad.X.Type().Underlying().(type) {
+					case *types.Slice:
+						addElems(u.Elem())
+					case *types.Pointer:
+						if at, ok := u.Elem().Underlying().(*types.Array); ok {
+							addElems(at.Elem())
+						} else {
+							heapAll = true
+						}
+					default:
+						heapAll = true
+					}
+				case *ssa.Alloc:
+					addPtr(ad.Type().Underlying().(*types.Pointer).Elem())
+				default:
 					heapAll = true
 				}
 			case *ssa.Next:
 				iters[ins.Iter] = true
 			case *ssa.MapUpdate:
-				heapAll = true
+				addMap(ins.Map.Type().Underlying().(*types.Map))
 			case *ssa.Call:
-				heapAll = true
-				// cells whose address escapes into a call are conservatively written
+				cc := ins.Call
+				if bi, ok := cc.Value.(*ssa.Builtin); ok {
+					switch bi.Name() {
+					case "len", "cap", "ssa:deferstack", "recover":
+					case "append":
+						addElems(ins.Type().Underlying().(*types.Slice).Elem())
+						heapKeys["alloc"] = SInt
+					case "copy":
+						addElems(cc.Args[0].Type().Underlying().(*types.Slice).Elem())
+					case "delete":
+						addMap(cc.Args[0].Type().Underlying().(*types.Map))
+					default:
+						heapAll = true
+					}
+					break
+				}
+				var spec *FuncSpec
+				if f := cc.StaticCallee(); f != nil && !cc.IsInvoke() {
+					if f.Pkg != nil && f.Pkg.Pkg.Path() == "sync/atomic" {
+						break
+					}
+					spec = e.W.Specs.Funcs[funcKey(f)]
+				} else if cc.IsInvoke() {
+					recvT := cc.Value.Type()
+					if n, ok := recvT.(*types.Named); ok {
+						pkg := ""
+						if n.Obj().Pkg() != nil {
+							pkg = n.Obj().Pkg().Name() + "."
+						}
+						spec = e.W.Specs.Funcs[pkg+n.Obj().Name()+"."+cc.Method.Name()]
+					}
+				}
+				if spec == nil || spec.Holds != "" {
+					heapAll = true
+					break
+				}
+				for _, m := range spec.Modifies {
+					switch {
+					case m == "all" || strings.HasPrefix(m, "*"):
+						heapAll = true
+					case m == "alloc":
+						heapKeys["alloc"] = SInt
+					case m == "nothing" || m == "":
+					case strings.HasPrefix(m, "map:"):
+						for _, ks := range e.resolveMapItem(strings.TrimPrefix(m, "map:")) {
+							heapKeys[ks[0]] = ks[1]
+						}
+					default:
+						for _, ks := range e.resolveHeapItem(m) {
+							heapKeys[ks[0]] = ks[1]
+						}
+					}
+				}
 			case *ssa.Defer, *ssa.Go, *ssa.Send:
 				heapAll = true
 			case *ssa.Alloc:
 				if ins.Heap {
-					heapAll = true
+					heapKeys["alloc"] = SInt
+					addPtr(ins.Type().Underlying().(*types.Pointer).Elem())
 				}
-			case *ssa.MakeSlice, *ssa.MakeMap, *ssa.MakeClosure, *ssa.MakeInterface:
-				heapAll = true
+			case *ssa.MakeSlice:
+				heapKeys["alloc"] = SInt
+				addElems(ins.Type().Underlying().(*types.Slice).Elem())
+			case *ssa.MakeMap:
+				heapKeys["alloc"] = SInt
+				addMap(ins.Type().Underlying().(*types.Map))
+			case *ssa.MakeClosure:
+			case *ssa.MakeInterface:
+				if !pointerShaped(ins.X.Type()) {
+					heapKeys["alloc"] = SInt
+					for j, so := range flatten(ins.X.Type()) {
+						heapKeys[boxKey(ins.X.Type(), j)] = "(Array Int " + so + ")"
+					}
+				}
+			case *ssa.Convert:
+				if isByteSlice(ins.Type()) && isString(ins.X.Type()) {
+					heapKeys["alloc"] = SInt
+					addElems(tByte)
+				}
 			}
 		}
 	}
@@ -755,6 +883,11 @@ func rootAlloc(v ssa.Value) *ssa.Alloc {
 				return a
 			}
 			return nil
+		case *ssa.IndexAddr:
+			if a, ok := x.X.(*ssa.Alloc); ok && !a.Heap {
+				return a
+			}
+			return nil
 		default:
 			return nil
 		}
@@ -766,7 +899,13 @@ func (e *Enc) loopPos(c *Ctx, li *loopInfo) {
 	for _, ins := range li.header.Instrs {
 		if nx, ok := ins.(*ssa.Next); ok {
 			if p, ok := c.St.m["it:"+nx.Iter.Name()]; ok {
-				c.Vars["_pos"] = ival(p)
+				if nx.IsString {
+					c.Vars["_pos"] = ival(p)
+				} else {
+					// range over a map: the ghost set of key ids already visited, and its size
+					c.Vars["_seen"] = Val{tArrB, []string{p}}
+					c.Vars["_seenn"] = ival(c.St.m["it:"+nx.Iter.Name()+":n"])
+				}
 			}
 		}
 	}
@@ -1032,7 +1171,7 @@ func (e *Enc) block(b *ssa.BasicBlock) {
 			e.assert(g, fmt.Sprintf("loop%d.init.%s", li.ord, clauseName(inv, i)), "inv", c.boolT(inv.Expr), inv.Src, b.Instrs[0].Pos())
 		}
 		// havoc
-		cells, heapAll, _, iters := e.loopWrites(li)
+		cells, heapAll, heapKeys, iters := e.loopWrites(li)
 		var keys []string
 		for k := range st.m {
 			keys = append(keys, k)
@@ -1040,6 +1179,22 @@ func (e *Enc) block(b *ssa.BasicBlock) {
 		sort.Strings(keys)
 		if heapAll {
 			e.havocAll(st, g)
+		} else {
+			var hk []string
+			for k := range heapKeys {
+				hk = append(hk, k)
+			}
+			sort.Strings(hk)
+			for _, k := range hk {
+				if k == "alloc" {
+					old := st.m["alloc"]
+					st.m["alloc"] = e.fresh("alloc", SInt)
+					e.assume(g, app("<=", old, st.m["alloc"]))
+					continue
+				}
+				e.heapKey(st, k, heapKeys[k])
+				st.m[k] = e.fresh("lh."+k, heapKeys[k])
+			}
 		}
 		for _, k := range keys {
 			hv := false
@@ -1053,7 +1208,7 @@ func (e *Enc) block(b *ssa.BasicBlock) {
 				}
 			case strings.HasPrefix(k, "it:"):
 				for it := range iters {
-					if k == "it:"+it.Name() {
+					if k == "it:"+it.Name() || k == "it:"+it.Name()+":n" {
 						hv = true
 					}
 				}
@@ -1076,12 +1231,17 @@ func (e *Enc) block(b *ssa.BasicBlock) {
 		for a := range cells {
 			if _, ok := st.m[cellKey(a, 0)]; ok {
 				e.assume(g, e.typeFacts(e.cellGet(st, a)))
+				e.assume(g, e.allocatedFacts(st, e.cellGet(st, a)))
+				e.assume(g, e.inputBound(e.cellGet(st, a)))
 			}
 		}
 		for it := range iters {
 			if p, ok := st.m["it:"+it.Name()]; ok {
-				s := e.iterStr[it]
-				e.assume(g, and(app("<=", "0", p), app("<=", p, s.C[2])))
+				if s, isStr := e.iterStr[it]; isStr {
+					e.assume(g, and(app("<=", "0", p), app("<=", p, s.C[2])))
+				} else if n, ok := st.m["it:"+it.Name()+":n"]; ok {
+					e.assume(g, app("<=", "0", n))
+				}
 			}
 		}
 		hc0 := &blockState{e: e, b: b, g: g, st: st}
